@@ -351,8 +351,10 @@ def run_property(modname, tier, seed, nproc=16, only=None):
         if ev['coverage']['evaluations'] == 0 or len(nontriv) < 2:
             harness_errors.append(f"exploration level: evaluations={ev['coverage']['evaluations']}, distinct_nontrivial={len(nontriv)} (need >0, >=2)")
             ev['coverage']['harness_errors'] = harness_errors[:40]
-    os.makedirs(os.path.join(OUT, 'evidence'), exist_ok=True)
-    with open(os.path.join(OUT, 'evidence', f"{prop}.json"), 'w') as f:
+    # a run restricted with --only is a development aid: its (partial) evidence must not replace the full one
+    evdir = 'evidence_partial' if only else 'evidence'
+    os.makedirs(os.path.join(OUT, evdir), exist_ok=True)
+    with open(os.path.join(OUT, evdir, f"{prop}.json"), 'w') as f:
         json.dump(ev, f, indent=1, default=str)
 
     seen = set()
